@@ -93,8 +93,11 @@ pub fn parse_u128(s: &str) -> Option<u128> {
 pub enum Exp {
     /// exactly this
     Is(Out),
-    /// result does not fit and the function has no overflow handling: the wrapped
-    /// value in either profile, or a panic under the checking profile only
+    /// result does not fit and the function has no overflow handling: no listed property
+    /// constrains the outcome (the documentation reserves a panic in every profile and only says
+    /// that the wrapped value "can be returned"), so nothing is asserted here; the payload is the
+    /// wrapped value, kept for reports. That the two profiles agree whenever both return normally
+    /// is C11's pair comparison.
     PlainOvf(Out),
     /// must unwind (documented panic, e.g. NaN given to from_num)
     MustPanic,
@@ -109,10 +112,10 @@ pub enum Exp {
 }
 
 impl Exp {
-    pub fn accepts(&self, got: &Out, chk: bool) -> bool {
+    pub fn accepts(&self, got: &Out, _chk: bool) -> bool {
         match self {
             Exp::Is(o) => got == o,
-            Exp::PlainOvf(o) => got == o || (chk && got.is_panic()),
+            Exp::PlainOvf(_) => true,
             Exp::MustPanic => got.is_panic(),
             Exp::NoPanic => !got.is_panic(),
             Exp::Free => true,
@@ -123,7 +126,7 @@ impl Exp {
     pub fn show(&self) -> String {
         match self {
             Exp::Is(o) => o.show(),
-            Exp::PlainOvf(o) => format!("{} (or overflow panic under the checking profile)", o.show()),
+            Exp::PlainOvf(o) => format!("anything (overflow without handling; wrapped value would be {})", o.show()),
             Exp::MustPanic => "a panic".into(),
             Exp::NoPanic => "any value without unwinding".into(),
             Exp::Free => "anything".into(),
